@@ -213,6 +213,27 @@ def run(ctx):
         check("braces", mk(False), mk(True), None, fin, strict)
         loop_check("braces", mk(False), mk(True), strict)
 
+    # directed family: a loop whose body holds a statement and then a nested loop that fails for every choice (the analysis leaves the
+    # body early there): the result must not depend on an extra pair of braces around the body or around the inner loop
+    for i in range(ctx.n(16, 120)):
+        r = ctx.rng
+        pre_ = r.choice(["x = y;", "x = y + z;", "y = x;", "x = y * y;", ""])
+        inner = r.choice(["while (z > 0) { z = z + z; }", "while (y > 0) { x = x * x; }", "while (z > 0) { z = z * x; x = z + z; }",
+                          "for (i = 0; i < y; i++) { z = z + z; }", "do { z = z + z; } while (z > 0);"])
+        post_ = r.choice(["", "y = z;", "x = x + y;"])
+        head = r.choice(["while (x > 0)", "for (i = 0; i < y; i++)" if "i < y" not in inner else "while (y > 0)", "while (y > z)"])
+        a_ = f"int f(int x, int y, int z, int i)\n{{\n  {head} {{ {pre_} {inner} {post_} }}\n}}\n"
+        form = r.randrange(3)
+        if form == 0:
+            b_ = f"int f(int x, int y, int z, int i)\n{{\n  {head} {{ {{ {pre_} {inner} {post_} }} }}\n}}\n"
+        elif form == 1:
+            b_ = f"int f(int x, int y, int z, int i)\n{{\n  {head} {{ {pre_} {{ {inner} }} {post_} }}\n}}\n"
+        else:
+            b_ = f"int f(int x, int y, int z, int i)\n{{\n  {{ {head} {{ {{ {pre_} }} {inner} ; {post_} }} }}\n}}\n"
+        strict = r.random() < 0.3
+        check("braces", a_, b_, None, r.random() < 0.5, strict)
+        loop_check("braces", a_, b_, strict)
+
     for i in range(n):
         cfg = streams.cfg_for(ctx.rng, 5)
         g = gen_prog.Gen(ctx.rng, cfg)
